@@ -203,12 +203,14 @@ Definition chain_entry_ok (c : parse_case) (p : pos_t) : bool :=
     quoted line is not that line of that file, 6 a planted fault was reported
     elsewhere or with another include chain (the wording of the message is
     not looked at), 7 a planted fault was not
-    reported at all, 8 the include chain of the diagnostic is unreadable. *)
+    reported at all, 8 the include chain of the diagnostic is unreadable, 9 a configuration the
+    generator knows to be readable (expectation class 0: files made of titles,
+    comments and resolvable includes nested at most ten deep) was refused. *)
 Definition parse_oracle_code (c : parse_case) : N :=
   match pc_obs c with
   | PPanicked => 1
   | PTimedOut => 2
-  | PAccepted _ => match pc_expect c with Some _ => 7 | None => 0 end
+  | PAccepted _ => match pc_expect c with Some (ecls, _, _) => if (ecls =? 0) then 0 else 7 | None => 0 end
   | PRejected cls pos chain names quoted chain_unparsed =>
       if chain_unparsed then 8
       else
@@ -226,7 +228,8 @@ Definition parse_oracle_code (c : parse_case) : N :=
         if negb (c1 =? 0) then c1
         else match pc_expect c with
              | Some (ecls, epos, echain) =>
-                 if opos_eqb pos (Some epos) && chain_eqb chain echain then 0 else 6
+                 if (ecls =? 0) then 9        (* this configuration must be read through *)
+                 else if opos_eqb pos (Some epos) && chain_eqb chain echain then 0 else 6
              | None => 0
              end
   end%N.
